@@ -89,46 +89,46 @@ func c02Hand(g *geojson.Geometry) string {
 	var jb, bb, wb []byte
 	var jerr, berr, werr error
 	parts := make([]string, 0, 10)
-	parts = append(parts, guard(func() string { jb, jerr = json.Marshal(g); return jsonTreeTok(jb, jerr) }))
+	parts = append(parts, gp("h", func() string { jb, jerr = json.Marshal(g); return jsonTreeTok(jb, jerr) }))
 	if jerr == nil && jb != nil {
 		var g1 *geojson.Geometry
-		ug := guard(func() string {
+		ug := gp("h", func() string {
 			var err error
 			g1, err = geojson.UnmarshalGeometry(jb)
 			return geometryOutcome(g1, err)
 		})
 		var g2 *geojson.Geometry
 		ok2 := false
-		ugp := guard(func() string {
+		ugp := gp("h", func() string {
 			err := json.Unmarshal(jb, &g2)
 			ok2 = err == nil
 			return geometryOutcome(g2, err)
 		})
 		rm := "na"
 		if strings.HasPrefix(ug, "ok") {
-			rm = guard(func() string { b, err := json.Marshal(g1); return sameFlag(jb, b, err) })
+			rm = gp("h", func() string { b, err := json.Marshal(g1); return sameFlag(jb, b, err) })
 		} else if ok2 {
-			rm = guard(func() string { b, err := json.Marshal(g2); return sameFlag(jb, b, err) })
+			rm = gp("h", func() string { b, err := json.Marshal(g2); return sameFlag(jb, b, err) })
 		}
 		parts = append(parts, ug, ugp, rm)
 	} else {
 		parts = append(parts, "na", "na", "na")
 	}
-	parts = append(parts, guard(func() string { bb, berr = bson.Marshal(g); return bsonTreeTok(bb, berr) }))
+	parts = append(parts, gp("h", func() string { bb, berr = bson.Marshal(g); return bsonTreeTok(bb, berr) }))
 	if berr == nil && bb != nil {
 		g3 := &geojson.Geometry{}
-		ub := guard(func() string { err := bson.Unmarshal(bb, g3); return geometryOutcome(g3, err) })
+		ub := gp("h", func() string { err := bson.Unmarshal(bb, g3); return geometryOutcome(g3, err) })
 		rm := "na"
 		if strings.HasPrefix(ub, "ok") {
-			rm = guard(func() string { b, err := bson.Marshal(g3); return bsonSame(bb, b, err) })
+			rm = gp("h", func() string { b, err := bson.Marshal(g3); return bsonSame(bb, b, err) })
 		}
 		parts = append(parts, ub, rm)
 	} else {
 		parts = append(parts, "na", "na")
 	}
-	parts = append(parts, guard(func() string { wb, werr = bson.Marshal(handWrapper{G: g}); return bsonTreeTok(wb, werr) }))
+	parts = append(parts, gp("h", func() string { wb, werr = bson.Marshal(handWrapper{G: g}); return bsonTreeTok(wb, werr) }))
 	if werr == nil && wb != nil {
-		parts = append(parts, guard(func() string {
+		parts = append(parts, gp("h", func() string {
 			var w handWrapper
 			err := bson.Unmarshal(wb, &w)
 			return geometryOutcome(w.G, err)
